@@ -30,6 +30,7 @@ import (
 	"istio.io/istio/pkg/config/analysis/msg"
 	"istio.io/istio/pkg/config/resource"
 	"istio.io/istio/pkg/config/schema/gvk"
+	"istio.io/istio/pkg/util/sets"
 )
 
 // ConflictingGatewayAnalyzer checks a gateway's selector, port number and hosts.
@@ -144,8 +145,8 @@ func isGWConflict(server *v1alpha3.Server, knowHostsBind gatewayHostsBind) bool 
 	return len(duplicates) > 0
 }
 
-// gatewayHostsBind: key host, value bind
-type gatewayHostsBind map[string]string
+// gatewayHostsBind: key host, value binds
+type gatewayHostsBind map[string]sets.String
 
 // gatewaysContextMap: key selectors~port, valueKey gatewayName
 type gatewaysContextMap map[string]map[string]gatewayHostsBind
@@ -166,9 +167,9 @@ func initGatewaysMap(ctx analysis.Context) gatewaysContextMap {
 				objMap := make(map[string]gatewayHostsBind)
 				gwConflictingMap[mapKey] = objMap
 			}
-			hb := map[string]string{}
+			hb := gatewayHostsBind{}
 			for _, h := range server.GetHosts() {
-				hb[h] = server.GetBind()
+				sets.InsertOrNew(hb, h, server.GetBind())
 			}
 			gwConflictingMap[mapKey][gwName] = hb
 		}
